@@ -655,7 +655,7 @@ func (fv *FV) convert(st *State, in *ssa.Convert) Val {
 }
 
 func (fv *FV) sliceWF(st *State, t string) {
-	st.assume(fmt.Sprintf("(and (<= 0 (soff %s)) (<= 0 (slen %s)) (<= (slen %s) (scap %s)) (<= 0 (sref %s)) (<= (sref %s) %s) (=> (= (sref %s) 0) (= (scap %s) 0)))", t, t, t, t, t, t, st.alloc, t, t))
+	st.assume(fmt.Sprintf("(and (<= 0 (soff %s)) (<= 0 (slen %s)) (<= (slen %s) (scap %s)) (<= 0 (sref %s)) (<= (sref %s) %s) (=> (= (sref %s) 0) (= (scap %s) 0)) (<= (scap %s) 9223372036854775807))", t, t, t, t, t, t, st.alloc, t, t, t))
 }
 
 // assumeWF adds the well-formedness facts for a value just loaded from
